@@ -626,3 +626,7 @@ def run(ctx):
     _run_main_nf(ctx)
     _NF.narrow_oracles(ctx, 'C10', _narrow_table())
     ctx.flush()
+
+
+# evidence: how the model is tied to the source on every run (as built, supersedes the value above)
+TIE = 'translator (duration functions and aliases -> Gen/ImDur; Props/C10Gen) + correspondence (exhaustive small records x fraction grid)'
